@@ -65,12 +65,14 @@ func (s *tcpPushStream) WritePacket(p *RTPPack) error {
 
 type tcpConsumer struct {
 	*Session
-	closed bool
-	source *media.Stream
-	cid    media.CID
+	closed   bool
+	source   *media.Stream
+	cid      media.CID
+	answered chan struct{} // closed once the PLAY response has been written
 }
 
 func (c *tcpConsumer) Consume(p Pack) {
+	<-c.answered // media follows the PLAY response, never precedes it
 	if c.closed {
 		return
 	}
@@ -118,9 +120,11 @@ type udpConsumer struct {
 	cid      media.CID
 	udpConn  *net.UDPConn // 用于Player的UDP单播
 	destAddr [rtpChannelCount]*net.UDPAddr
+	answered chan struct{} // closed once the PLAY response has been written
 }
 
 func (c *udpConsumer) Consume(p Pack) {
+	<-c.answered // media follows the PLAY response, never precedes it
 	if c.closed {
 		return
 	}
@@ -229,14 +233,14 @@ func (s *Session) asTCPConsumer(stream *media.Stream, resp *Response) (err error
 	}
 
 	c := &tcpConsumer{
-		Session: s,
-		source:  stream,
+		Session:  s,
+		source:   stream,
+		answered: make(chan struct{}),
 	}
 
-	err = s.response(resp)
-	if err != nil {
-		return err
-	}
+	// 先注册消费者再应答: once the client has read the 200 it counts as attached, so
+	// the consumer must be registered by then or packets published in between are
+	// lost to it. Consume holds the media back until the response is written.
 	s.timeout = 0 // play 只需发送不用接收，因此设置不超时
 	s.consumer = c
 	// if s.wsconn != nil {
@@ -244,13 +248,15 @@ func (s *Session) asTCPConsumer(stream *media.Stream, resp *Response) (err error
 	// } else {
 	c.cid = stream.StartConsume(s, media.RTPPacket, "net=rtsp-tcp")
 	// }
-	return
+	defer close(c.answered)
+	return s.response(resp)
 }
 
 func (s *Session) asUDPConsumer(stream *media.Stream, resp *Response) (err error) {
 	c := &udpConsumer{
-		Session: s,
-		source:  stream,
+		Session:  s,
+		source:   stream,
+		answered: make(chan struct{}),
 	}
 
 	// 创建udp连接
@@ -267,16 +273,14 @@ func (s *Session) asUDPConsumer(stream *media.Stream, resp *Response) (err error
 	s.logger = s.logger.With(xlog.Fields(
 		xlog.F("path", s.path),
 		xlog.F("type", "udp-player")))
-	err = s.response(resp)
-	if err != nil {
-		return err
-	}
 
+	// 先注册消费者再应答，理由同 asTCPConsumer
 	s.timeout = 0 // play 只需发送不用接收，因此设置不超时
 	s.consumer = c
 
 	c.cid = stream.StartConsume(s, media.RTPPacket, "net=rtsp-udp")
-	return nil
+	defer close(c.answered)
+	return s.response(resp)
 }
 
 func (s *Session) asMulticastConsumer(stream *media.Stream, resp *Response) (err error) {
